@@ -46,10 +46,10 @@ def family(run):
         # seed-chosen stratum beyond the complete bound
         extra = list(seqbody.programs(2, level=1))
         run.rng.shuffle(extra)
-        yield from add(extra[:600])
+        yield from add(extra[:8000])
         extra = list(seqbody.programs(4))
         run.rng.shuffle(extra)
-        yield from add(extra[:300])
+        yield from add(extra)
 
 
 def main(run: Run):
